@@ -813,6 +813,9 @@ type scenario struct {
 var scenarioKinds = []string{"A-plain-close", "A2-plain-two-sessions", "B-compress-option-fresh", "C-converted-compressed",
 	"D-idle-then-close", "E-idle-abort-exit", "F-only-old-stray-tmp", "G-unreadable-db-good-old", "H-nothing-committed", "I-info-truncated-records-db-good-old", "K-bulk-plain", "L-bulk-compressed", "M-bulk-plain-idle-then-close"}
 
+// generalKinds are run at many small/medium sizes; the bulk kinds (K, L, M) are scheduled explicitly.
+var generalKinds = scenarioKinds[:10]
+
 func (s *snapRunner) childFailed(sc *scenario, step string, res vlib.ChildResult, rep *writerReport) bool {
 	if res.TimedOut {
 		s.run.Inconclusive("snapshot child watchdog fired: %v %s", sc, step)
@@ -840,6 +843,10 @@ func (s *snapRunner) runScenario(sc *scenario) {
 	os.MkdirAll(dir, 0o755)
 	p := makePlan(sc.Seed, sc.NRec, sc.BaseH, sc.SpendAll, sc.Bulk)
 	nb := len(p.Blocks)
+	if sc.Bulk && len(p.States[nb]) != sc.NRec {
+		run.Inconclusive("bulk plan holds %d records instead of %d %v", len(p.States[nb]), sc.NRec, sc)
+		return
+	}
 	base := snapArgs{Dir: dir, Seed: sc.Seed, NRec: sc.NRec, BaseH: sc.BaseH, SpendAll: sc.SpendAll, RealAlloc: sc.RealAlloc, Bulk: sc.Bulk}
 	stepNo := 0
 	write := func(step string, mod func(a *snapArgs)) (*writerReport, bool) {
